@@ -76,6 +76,14 @@ def svals(M):
         return np.linalg.svd(M, compute_uv=False)
 
 
+def full_column_rank(M, rel=1e-8):
+    """True iff M has full column rank with sigma_min/sigma_max > rel (needs at least as many rows as columns)."""
+    if M.shape[0] < M.shape[1] or M.shape[1] == 0:
+        return False
+    s = svals(M)
+    return bool(len(s) == M.shape[1] and s[0] > 0 and s[-1] > rel * s[0])
+
+
 def eps_matrix(t, nint, cols, rows, at, fit, npts_of=None):
     """Per-entry coefficient tolerance, same shape as A."""
     E = np.zeros((2 * len(rows), len(cols)))
